@@ -215,6 +215,19 @@ func genC12(r *Rng, i int) *WCase {
 		c.FailAt = 1 + r.Intn(6)
 	}
 	h2 := append(partition(r, n2, 1, s, true), Op{K: "c"})
+	if i%5 == 2 {
+		// Huffman-only: the first stream is closed cleanly with a length that is a multiple of the block
+		// size (0 included): nothing is pending, the output cursor is just past the final empty block
+		c.Set = Setting{API: r.PickS([]string{"flate", "flate", "gzip", "zlib"}), Level: -2, Win4K: false}
+		k := r.Pick([]int{0, 0, 65536, 131072})
+		c.Datas[0] = DataSpec{Gen: r.PickS([]string{"text", "rnd", "uni3"}), Seed: r.U64(), N: k}
+		h1 = []Op{{K: "c"}}
+		if k > 0 {
+			h1 = []Op{{K: "w", N: k}, {K: "c"}}
+		}
+		c.FailAt = 0
+		h2 = append(partition(r, n2, 1, c.Set, true), Op{K: "c"})
+	}
 	c.Ops = append(append(h1, Op{K: "r"}), h2...)
 	if i%4 == 1 {
 		// parked and taken again: two Resets in a row (onto different destinations), nothing in between
